@@ -39,6 +39,9 @@ pub struct ObjectJsonIter<'de> {
     first: bool,
     ending: bool,
     skip_strict: bool,
+    // the iterator holds its text itself (`LazyValue::into_object_iter` on a lazy value that
+    // owns it), so keys cannot borrow from that text for `'de`
+    own_keys: bool,
 }
 
 /// A lazied iterator for JSON array text. It will parse the JSON when iterating.
@@ -78,12 +81,14 @@ pub struct ArrayJsonIter<'de> {
 impl<'de> ObjectJsonIter<'de> {
     // input is inner json, expected always be validated and well-formed
     pub(crate) fn new_inner(input: JsonSlice<'de>) -> Self {
+        let own_keys = matches!(input, JsonSlice::FastStr(_));
         Self {
             parser: Parser::new(Read::new_in(input, false)),
             strbuf: Vec::with_capacity(DEFAULT_KEY_BUF_CAPACITY),
             first: true,
             ending: false,
             skip_strict: false,
+            own_keys,
         }
     }
 
@@ -98,6 +103,7 @@ impl<'de> ObjectJsonIter<'de> {
             first: true,
             ending: false,
             skip_strict,
+            own_keys: false,
         }
     }
 
@@ -120,6 +126,11 @@ impl<'de> ObjectJsonIter<'de> {
         {
             Ok(ret) => {
                 if let Some(Pair { key, val, status }) = ret {
+                    let key = if self.own_keys {
+                        Cow::Owned(key.into_owned())
+                    } else {
+                        key
+                    };
                     let val = self.parser.read.slice_ref(val);
                     Some(Ok(LazyValue::new(val, status.into())).map(|v| (key, v)))
                 } else {
